@@ -36,7 +36,11 @@ var rwSmall = []string{
 
 func rwFull() []string {
 	vals := []string{"1.2.3.4", "1.2.3.5", "::1", "x.org", "y.org", "NXDOMAIN", "REFUSED", "NOERROR;TXT;hi", "NOERROR;MX;10 m.org",
-		"NOERROR;MX;20 m.org", "NOERROR;SRV;1 2 80 s.org", "NOERROR;HTTPS;1 . alpn=h3", "NOERROR;A;1.2.3.4", "NOERROR;PTR;p.org", "NOERROR;NS;n.org", "NOERROR;;"}
+		"NOERROR;MX;20 m.org", "NOERROR;SRV;1 2 80 s.org", "NOERROR;HTTPS;1 . alpn=h3", "NOERROR;A;1.2.3.4", "NOERROR;PTR;p.org", "NOERROR;NS;n.org", "NOERROR;;",
+		// parameter maps: same size with different keys, empty values, same map written in another order
+		"NOERROR;HTTPS;1 . alpn=h3 no-default-alpn=", "NOERROR;HTTPS;1 . alpn=h3 port=8443", "NOERROR;HTTPS;1 . port=8443 alpn=h3",
+		"NOERROR;HTTPS;1 . alpn=h3 ech=", "NOERROR;HTTPS;1 . alpn= port=8443", "NOERROR;SVCB;1 . alpn=h3", "NOERROR;HTTPS;2 . alpn=h3",
+		"NOERROR;SRV;1 2 81 s.org", "NOERROR;SRV;1 3 80 s.org", "NOERROR;MX;10 n.org", "NOERROR;TXT;", "NOERROR;AAAA;::1", "NOERROR;A;1.2.3.5"}
 	var out []string
 	for _, v := range vals {
 		for _, exc := range []bool{false, true} {
